@@ -1,19 +1,19 @@
 --------------------------- MODULE IsolationTrace ---------------------------
 (* Validation of a recorded execution against Isolation.tla's claim: the digest after segment k of *)
 (* instance i is a function of (i, k).  Lines Ref(i,k,h) come from solo runs, Seg(i,k,h) from the   *)
-(* interleaved executions (one Reset line before each schedule).                                    *)
+(* interleaved executions (one Reset line, carrying the number of segments, before each schedule).                                    *)
 EXTENDS Integers, Sequences, TLC, Json, IOUtils
 Log == ndJsonDeserialize(IOEnv.TRACE)
-VARIABLES l, ref, cnt
-TInit == l = 1 /\ ref = [i \in 1..9 |-> [k \in 1..9 |-> <<>>]] /\ cnt = [i \in 1..9 |-> 0]
+VARIABLES l, ref, cnt, nseg
+TInit == l = 1 /\ ref = [i \in 1..9 |-> [k \in 1..9 |-> <<>>]] /\ cnt = [i \in 1..9 |-> 0] /\ nseg = 1
 TNext == /\ l <= Len(Log) /\ l' = l + 1
          /\ LET e == Log[l] IN
-            CASE e.e = "Ref"   -> ref' = [ref EXCEPT ![e.i][e.k] = e.h] /\ UNCHANGED cnt
-              [] e.e = "Reset" -> cnt' = [i \in 1..9 |-> 0] /\ UNCHANGED ref
-              [] e.e = "Seg"   -> /\ e.k = cnt[e.i] + 1              \* segments of one instance in order
-                                  /\ e.h = ref[e.i][e.k]             \* digest as in the solo run
-                                  /\ cnt' = [cnt EXCEPT ![e.i] = e.k] /\ UNCHANGED ref
-TSpec == TInit /\ [][TNext]_<<l, ref, cnt>>
+            CASE e.e = "Ref"   -> ref' = [ref EXCEPT ![e.i][e.k] = e.h] /\ UNCHANGED <<cnt, nseg>>
+              [] e.e = "Reset" -> cnt' = [i \in 1..9 |-> 0] /\ nseg' = e.k /\ UNCHANGED ref      \* k carries the number of segments
+              [] e.e = "Seg"   -> /\ e.k = cnt[e.i] + 1                          \* segments of one instance in order
+                                  /\ e.h = ref[e.i][((e.k - 1) % nseg) + 1]      \* digest as in the solo run, also when repeated
+                                  /\ cnt' = [cnt EXCEPT ![e.i] = e.k] /\ UNCHANGED <<ref, nseg>>
+TSpec == TInit /\ [][TNext]_<<l, ref, cnt, nseg>>
 ASSUME TLCSet(42, 0)
 TrackL == IF l > TLCGet(42) THEN TLCSet(42, l) ELSE TRUE
 Accepted == PrintT(<<"MAXL", TLCGet(42), Len(Log)>>)
